@@ -15,7 +15,7 @@ MATRIX_FNS = ["matrix", "lemma_cell_sem", "lemma_cmp_rekey", "lemma_cell_missing
 
 FRAME_FNS = ["lemma_frame", "lemma_frame_group", "lemma_frame_match", "lemma_frame_leaf", "lemma_frame_cmp", "lemma_frame_row", "lemma_frame_rows", "lemma_frame_rows_all", "lemma_frame_rows_of", "lemma_frame_defined", "lemma_frame_elems", "lemma_agree_elem"]
 REWRITE_FNS = ["rewrite_search", "rewrite", "lemma_rw_refl", "lemma_rw_wf"]
-BATCH_FNS = ["batch", "seqtail", "shake_needles", "single_pattern", "classify_member", "entry_tail", "mapping_tail", "lemma_ac_one", "lemma_kinds_push", "lemma_no_merged_push", "lemma_pairs_aligned", "lemma_pairs_any", "lemma_single_quant", "lemma_ac_search", "lemma_ac_member", "lemma_ac_any", "lemma_single_kind", "lemma_exact_empty", "lemma_any_ctx_push", "lemma_any_regex_push", "lemma_any_group_push", "lemma_any_ident_take", "lemma_group_ok_push"]
+BATCH_FNS = ["batch", "seqtail", "shake_needles", "single_pattern", "classify_member", "entry_tail", "mapping_tail", "bool_value", "number_value", "lemma_ac_one", "lemma_kinds_push", "lemma_no_merged_push", "lemma_pairs_aligned", "lemma_pairs_any", "lemma_single_quant", "lemma_ac_search", "lemma_ac_member", "lemma_ac_any", "lemma_single_kind", "lemma_exact_empty", "lemma_any_ctx_push", "lemma_any_regex_push", "lemma_any_group_push", "lemma_any_ident_take", "lemma_group_ok_push"]
 
 PROPS = {
     "C15": {
@@ -42,8 +42,8 @@ PROPS = {
     },
     "C02": {
         "units": {"solver": SOLVER_CORE + ["search", "as_bool", "is_null", "as_str", "as_object", "to_string"], "batch": BATCH_FNS},
-        "explanation": "solve_expression is proved equal to sem3, the denotational semantics written from the rule-language documentation (mapping=and3 in order, sequence=or3, missing field => Missing, only True matches); search is proved equal to search_rel per pattern kind; of the YAML -> expression translation, six blocks of parse_mapping are under contract as verbatim slices: a single string value (numeric prefix -> the comparison it names, otherwise one search meaning the pattern), the classification of a list member, the list batching, the quantifier wrapping at the end of a list, the not() key modifier (entry_tail) and 'a mapping is the conjunction of its entries in written order' (mapping_tail)",
-        "assumptions": ["parse_mapping outside the six slices is not under contract: the Yaml walk, key tokenising/parsing (int()/flt()/str()/not()/all()/of() keys), boolean / number / null / nested-mapping values, parse_identifier (sequence of mappings -> or-group)"],
+        "explanation": "solve_expression is proved equal to sem3, the denotational semantics written from the rule-language documentation (mapping=and3 in order, sequence=or3, missing field => Missing, only True matches); search is proved equal to search_rel per pattern kind; of the YAML -> expression translation, eight blocks of parse_mapping are under contract as verbatim slices: a boolean value and a number value on a key (incl. the int() / str() key modifiers), a single string value (numeric prefix -> the comparison it names, otherwise one search meaning the pattern), the classification of a list member, the list batching, the quantifier wrapping at the end of a list, the not() key modifier (entry_tail) and 'a mapping is the conjunction of its entries in written order' (mapping_tail)",
+        "assumptions": ["parse_mapping outside the eight slices is not under contract: the Yaml walk, key tokenising/parsing (int()/flt()/str()/not()/all()/of() keys), null / nested-mapping values, boolean / number / null / mapping members of a list, parse_identifier (sequence of mappings -> or-group)"],
     },
     "C07": {
         "units": {"solver": ["search"], "identifier": ["into_identifier"], "batch": BATCH_FNS},
